@@ -24,8 +24,11 @@ source /tmp/qedenv/env.sh
 say "== with patch: build"
 ( go build ./... && go build -tags verif ./... ) >>"$LOG" 2>&1; RCB=$?
 say "build: rc=$RCB"
-say "== with patch: pinned suite"
+say "== with patch: pinned suite (demonstration files moved aside)"
+ASIDE=$(mktemp -d)
+for f in $(git ls-files --others --exclude-standard | grep '_test\.go$' | grep -E '^(client|crypto|gossip|log|storage/bplus|testutils/spec)/'); do mkdir -p "$ASIDE/$(dirname $f)"; mv "$f" "$ASIDE/$f"; done
 ( unset CGO_CFLAGS CGO_CXXFLAGS CGO_LDFLAGS CXX CGO_LDFLAGS_ALLOW; /tmp/qedenv/pinned_tests.sh "$WT" ) >>"$LOG" 2>&1; RCP=$?
+( cd "$ASIDE" && find . -type f | while read f; do mv "$f" "$WT/$f"; done ); rm -rf "$ASIDE"
 say "pinned suite: rc=$RCP"
 say "== with patch: demonstration"
 rundemo >>"$LOG" 2>&1; RC1=$?
